@@ -265,6 +265,9 @@ class Exec(ExecExpr):
             if pname in env and env[pname].has_py and env[pname].py == pval:
                 c = SP.CONTRACTS[vq]
                 break
+            if pname in env and isinstance(env[pname].ty, Ty.TInst) and env[pname].ty.cls == pval:
+                c = SP.CONTRACTS[vq]
+                break
         self.used_contracts.add(c.qual)
         short = c.qual.split(':')[1]
         # declared parameter types are part of the precondition
